@@ -13,7 +13,7 @@ func init() { props["C11"] = propC11 }
 
 func propC11(c *Ctx, r *Report) {
 	r.Explain = "Era tables by specialised constant propagation: grader version handed to grader.NewGrader / graderStake.NewGrader and the block height given to them for every height class; FCT burns applied only before 2.0, SPR winners paid only from 2.0, OPR winners whenever a graded block exists. Provenance on SSA: in both ApplyGraded*Block functions the loop ranges over Winners(), credits PEG, amount = Payout() and address = GetAddress() of the same element that is written to history, one credit per iteration. Decision table of ApplyFactoidBlock over the shape of a factoid transaction: a burn is registered in exactly one cell (1 EC output to the burn address with amount 0, 1 FCT input, no FCT output); credit = that input's amount and address, ticker pFCT. Previous winners read for the block height with sql.ErrNoRows as the only tolerated error. Staker identity: the external id checked against the top-100 PEG holders must be bound to the verified signing key."
-	r.NotDec = "the graders' verdicts and reward amounts (dependency); 'fewer than the winner count pays nothing' lives in Winners() of the dependency"
+	r.NotDec = "the graders' verdicts and reward amounts (dependency); 'fewer than the winner count pays nothing' lives in Winners() of the dependency; what the top-100 holder query computes (the meaning of its SQL under SQLite's NULL and ordering semantics - seeds C11-D, C11-S)"
 	r.Trusted = []string{"pegnet/modules graders", "mainnet activation constants", "go/ssa"}
 	e := newEraCtx(c, r)
 	r.rule("C11/era-table", 7, "grader versions and payout steps by height class")
